@@ -122,6 +122,16 @@ struct Walk<'a> {
     part: &'a mut Part,
     states: HashSet<u64>,
     with_drops: bool,
+    ctor: &'static str,
+}
+
+/// The three public ways of making a smoother ("new" and "default" start at tag 1).
+fn make(start: u64, ctor: &str) -> ConfirmSmoother {
+    match ctor {
+        "new" => ConfirmSmoother::new(),
+        "default" => ConfirmSmoother::default(),
+        _ => ConfirmSmoother::with_expected_delivery_tag(start),
+    }
 }
 
 impl<'a> Walk<'a> {
@@ -186,7 +196,7 @@ impl<'a> Walk<'a> {
                                     got,
                                     want_prefix
                                 ),
-                                json!({"engine":"seqx","check":"smoother","start":self.start.to_string(),"n":self.n,"history":h,"drops":drops.clone()}),
+                                json!({"engine":"seqx","check":"smoother","start":self.start.to_string(),"ctor":self.ctor,"n":self.n,"history":h,"drops":drops.clone()}),
                             );
                         } else {
                             self.valid(&sm2, &r2, hist, drops);
@@ -274,7 +284,7 @@ impl<'a> Arb<'a> {
 pub fn run(args: &Args) {
     let thorough = args.thorough();
     let mut part = Part::new("C14", "smoother", "seqx", "model_checking", &args.tier);
-    part.rule = "every valid confirmation history (each tag confirmed once, by a single or by a multiple naming a still-unconfirmed tag; multiple flag and ack/nack free) for N tags and each start tag; for N<=4 additionally every early-drop pattern of the returned iterators; plus every arbitrary sequence over tags 1..=N+1 x multiple x outcome to the stated depth (safety only). Non-trivial: history contains a multiple and a nack (valid part) / every arbitrary sequence.".into();
+    part.rule = "every valid confirmation history (each tag confirmed once, by a single or by a multiple naming a still-unconfirmed tag; multiple flag and ack/nack free) for N tags and each start tag (smoother made by with_expected_delivery_tag; for start 1 and N<=4 also by new() and by Default); for N<=4 additionally every early-drop pattern of the returned iterators; plus every arbitrary sequence over tags 1..=N+1 x multiple x outcome to the stated depth (safety only). Non-trivial: history contains a multiple and a nack (valid part) / every arbitrary sequence.".into();
     let max_n = if thorough { 7 } else { 6 };
     let starts: Vec<u64> = vec![1, 2, 1000, (1u64 << 32) + 1, u64::MAX - 8];
     part.bounds.insert("max_tags".into(), json!(max_n));
@@ -287,7 +297,7 @@ pub fn run(args: &Args) {
     // work items: (mode, start, n, first symbol index)
     #[derive(Clone)]
     enum Item {
-        Valid { start: u64, n: usize, drops: bool },
+        Valid { start: u64, n: usize, drops: bool, ctor: &'static str },
         Arb { start: u64, first: usize },
     }
     let mut items = Vec::new();
@@ -297,9 +307,15 @@ pub fn run(args: &Args) {
             if n == max_n && !(start == 1 || start == u64::MAX - 8) {
                 continue;
             }
-            items.push(Item::Valid { start, n, drops: false });
+            items.push(Item::Valid { start, n, drops: false, ctor: "with" });
             if n <= 4 {
-                items.push(Item::Valid { start, n, drops: true });
+                items.push(Item::Valid { start, n, drops: true, ctor: "with" });
+            }
+            // the other two ways of making a smoother start at tag 1 as well
+            if start == 1 && n <= 4 {
+                for ctor in ["new", "default"] {
+                    items.push(Item::Valid { start, n, drops: n <= 3, ctor });
+                }
             }
         }
     }
@@ -312,12 +328,12 @@ pub fn run(args: &Args) {
     let results: Vec<(Part, usize, String)> = par_map(items.len(), |i| {
         let mut p = Part::new("C14", "w", "seqx", "model_checking", &tier);
         match items[i].clone() {
-            Item::Valid { start, n, drops } => {
-                let mut w = Walk { start, n, part: &mut p, states: HashSet::new(), with_drops: drops };
-                let sm = ConfirmSmoother::with_expected_delivery_tag(start);
+            Item::Valid { start, n, drops, ctor } => {
+                let mut w = Walk { start, n, part: &mut p, states: HashSet::new(), with_drops: drops, ctor };
+                let sm = make(start, ctor);
                 w.valid(&sm, &Ref::new(n), &mut Vec::new(), &mut Vec::new());
                 let st = w.states.len();
-                let label = format!("valid start={} n={} drops={} histories={}", start, n, drops, p.evaluations);
+                let label = format!("valid start={} ctor={} n={} drops={} histories={}", start, ctor, n, drops, p.evaluations);
                 (p, st, label)
             }
             Item::Arb { start, first } => {
@@ -369,7 +385,7 @@ pub fn replay(v: &Value) -> bool {
     let start: u64 = v["start"].as_str().unwrap().parse().unwrap();
     let n = v["n"].as_u64().unwrap_or(8) as usize;
     let arbitrary = v["mode"].as_str() == Some("arbitrary");
-    let mut sm = ConfirmSmoother::with_expected_delivery_tag(start);
+    let mut sm = make(start, v["ctor"].as_str().unwrap_or("with"));
     let mut r = Ref::new(n);
     let mut ok = true;
     let drops: Vec<usize> = v["drops"].as_array().map(|a| a.iter().map(|x| x.as_u64().unwrap() as usize).collect()).unwrap_or_default();
